@@ -81,6 +81,13 @@ func (c *Ctx) execInstr(in ssa.Instruction, st *State) {
 			// (package-level objects are not local variables: their names in contracts
 			// mean the global, read in the state the clause is evaluated in)
 			c.dbg[obj.Name()] = append(c.dbg[obj.Name()], x.X)
+			if c.dbgAt == nil {
+				c.dbgAt = map[string]map[ssa.Value][]ssa.Instruction{}
+			}
+			if c.dbgAt[obj.Name()] == nil {
+				c.dbgAt[obj.Name()] = map[ssa.Value][]ssa.Instruction{}
+			}
+			c.dbgAt[obj.Name()][x.X] = append(c.dbgAt[obj.Name()][x.X], x)
 			if c.dbgObj == nil {
 				c.dbgObj = map[ssa.Value]types.Object{}
 			}
